@@ -165,6 +165,52 @@ def o_coherent(src, obj, kw):
     return None
 
 
+@C.oracle('entry_points')
+def o_entry_points(src, obj, kw):
+    """keyword arguments reach the context the same way through every public entry point: build / build_stream / build_file emit the same
+    bytes, parse / parse_stream / parse_file return the same value, sizeof sees the same keys"""
+    import io, os, tempfile
+    c = C.get(src)
+
+    def run(f):
+        try:
+            return ('ok', f())
+        except Exception as e:
+            return ('err', type(e).__name__)
+    b0 = run(lambda: c.build(obj, **kw))
+
+    def via_stream():
+        st = io.BytesIO()
+        c.build_stream(obj, st, **kw)
+        return st.getvalue()
+    fd, fn = tempfile.mkstemp(prefix='c07_')
+    os.close(fd)
+    try:
+        def via_file():
+            c.build_file(obj, fn, **kw)
+            return open(fn, 'rb').read()
+        b1, b2 = run(via_stream), run(via_file)
+        if b1 != b0:
+            return 'build_stream gives %r where build gives %r' % (b1, b0)
+        if b2 != b0:
+            return 'build_file gives %r where build gives %r' % (b2, b0)
+        if b0[0] != 'ok':
+            return None
+        data = b0[1]
+        open(fn, 'wb').write(data)
+        p0 = run(lambda: c.parse(data, **kw))
+        p1 = run(lambda: c.parse_stream(io.BytesIO(data), **kw))
+        p2 = run(lambda: c.parse_file(fn, **kw))
+        same = lambda a, b: a[0] == b[0] and (C.veq(a[1], b[1]) if a[0] == 'ok' else a[1] == b[1])
+        if not same(p1, p0):
+            return 'parse_stream gives %r where parse gives %r' % (p1, p0)
+        if 'Lazy' not in src and not same(p2, p0):          # parse_file closes the file before a lazy result can be read (DESIGN 0.7, C17)
+            return 'parse_file gives %r where parse gives %r' % (p2, p0)
+    finally:
+        os.unlink(fn)
+    return None
+
+
 @C.oracle('lazy_sibling')
 def o_lazy_sibling(src, eager, data):
     """this.x sees an earlier sibling also when the structure is lazy"""
@@ -304,6 +350,13 @@ def run(tier, seed):
             cases.append(dict(src=src, op='parse', data=C.get(src).build(obj, **kw), kw=kw))
         except Exception:
             pass
+    for src, obj, kw in COHERENT + [
+            ('Struct("d"/Bytes(this._params.n), "t"/Byte)', dict(d=b'ab', t=1), dict(n=2)),
+            ('Struct("s"/Struct("d"/Bytes(this._.k)), "a"/Array(this.k, Byte))', dict(s=dict(d=b'abc'), a=[1, 2, 3]), dict(k=3)),
+            ('Struct("s"/Struct("q"/Struct("d"/Bytes(this._root._.k))), "t"/Byte)', dict(s=dict(q=dict(d=b'xy')), t=7), dict(k=2)),
+            ('Sequence(Bytes(this._.n), IfThenElse(this._params.big, Int32ub, Byte))', [b'ab', 70000], dict(n=2, big=True)),
+            ('Struct("x"/Switch(this._params.kind, {"a": Byte, "b": Int16ub}), "p"/Padded(this._.w, Byte))', dict(x=300, p=1), dict(kind='b', w=3))]:
+        acc.check('entry_points', src, obj=obj, kw=kw)
     for src, csrc, data in UNION_SELFREF:
         acc.check('union_selfref', src, const_src=csrc, data=data)
         if 'lambda' not in src:
